@@ -1824,6 +1824,10 @@ where
         // TODO: have richer types in halo2
         return Err(Error::InvalidInstances);
     }
+    if n == 0 {
+        // An empty batch is vacuously valid (there is no guard to check).
+        return Ok(());
+    }
 
     let mut r_transcript = CircuitTranscript::init();
 
